@@ -82,7 +82,7 @@ def run(spec):
     ths = build_threads(w, progs)
     T = len(ths)
     chunks, free = plan_for(spec, T)
-    M = bmc.Model(spec["cap"], ths, chunks, hb=(kind == "hb"), dofs=w.dofs, spurious=spec.get("spurious", 1),
+    M = bmc.Model(spec["cap"], ths, chunks, hb=(kind in ("hb", "teardown")), dofs=w.dofs, spurious=spec.get("spurious", 1),
                   spawner=(0 if spec.get("init", "fresh") == "fresh" else None))
     M.build()
     K = M.K
@@ -100,8 +100,11 @@ def run(spec):
                 init += [z3.UGE(a, v[0]), z3.ULE(a, v[1])]
             else:
                 init.append(a == v)
-    if kind == "hb":
+    if kind in ("hb", "teardown"):
         init += M.hb_init()
+    nholders = sum(1 for pr in progs if any(a[0] == "drop_arena" for a in pr))
+    if nholders:
+        init += w.init_refs(M, nholders)
     dead = set()
     if kind == "crash":
         dead.add(chunks[free[0]][0])
@@ -137,8 +140,22 @@ def run(spec):
             if cyc is not None:
                 stuck_terms.append(z3.And(cyc, *others))
     stuck = z3.Or(stuck_terms) if stuck_terms else z3.BoolVal(False)
-    race = M.H[K]["race"] if kind == "hb" else z3.BoolVal(False)
-    viol = {"safe": M.any_bad(), "crash": z3.Or(M.any_bad(), stuck), "live": stuck, "hb": race}[kind]
+    race = M.H[K]["race"] if kind in ("hb", "teardown") else z3.BoolVal(False)
+    teardown_bad = z3.BoolVal(False)
+    if kind == "teardown":
+        tb = []
+        # a step taken by any thread after another thread has unmounted the memory (use after free, or a second unmount)
+        for k in range(K):
+            ti = M.plan[k]
+            others_unm = z3.Or([M.F[k][o]["unmounts"] != 0 for o in range(T) if o != ti] or [z3.BoolVal(False)])
+            tb.append(z3.And(M.run[k], others_unm))
+        total = sum([z3.ZeroExt(5, M.F[K][o]["unmounts"]) for o in range(T)][1:], z3.ZeroExt(5, M.F[K][0]["unmounts"]))
+        # when everybody has finished the memory has been released exactly once
+        tb.append(z3.And(done_end, total != 1))
+        tb.append(total > 1)
+        teardown_bad = z3.Or(tb)
+    viol = {"safe": M.any_bad(), "crash": z3.Or(M.any_bad(), stuck), "live": stuck, "hb": race,
+            "teardown": z3.Or(race, teardown_bad, M.any_bad())}[kind]
     res = {"family": spec["name"], "kind": kind, "chunks": chunks, "free_chunks": free, "steps": K, "points": [len(t.points) for t in ths],
            "regs": [sum(t.regs.values()) for t in ths], "encode_s": round(time.time() - t_start, 1), "queries": [], "cex": None,
            "functions": sorted(set(fr[0] for t in ths for p in t.by_id.values() if p.frames for fr in p.frames))}
@@ -197,6 +214,14 @@ def run(spec):
             v = chunks[free[0]][0]
             kc = sum(n for (_, n) in chunks[: free[0] + 1])
             r4, _ = ask("reach: victim dies inside an operation", [z3.Not(M.finished(kc, v)), z3.UGT(M.pc[kc][v], 0)])
+            res["reach_interference"] = r4
+        elif kind == "teardown":
+            last = [z3.And(done_end, M.F[K][o]["unmounts"] == 1) for o in range(T) if not (spec.get("init", "fresh") == "fresh" and o == 0)]
+            r4 = "sat"
+            for i_, c_ in enumerate(last):
+                rr, _ = ask("reach: thread %d is the one that unmounts" % i_, [c_, z3.Not(viol)])
+                if rr != "sat":
+                    r4 = rr
             res["reach_interference"] = r4
         elif kind == "hb":
             # the hand-over really happens: the witness byte is written by one thread after another thread wrote it
